@@ -75,4 +75,114 @@ theorem reach_after {c : Cfg} {tr : List Ev} (h : (run c (init c) tr).isSome = t
   | none => simp [hr] at h
   | some s => exact reach_of_run tr Reach.init hr
 
+/-! ### a diamond with an unselected dependant
+
+  0 ← 1, 0 ← 2, {1, 2} ← 3, 3 ← 4; selected: 0..3 (node 4 depends on the selection but is not part of it). -/
+
+def diamond (ff : Bool) : Cfg :=
+  { sel := [0, 1, 2, 3],
+    deps := fun n => match n with
+      | 1 => [0] | 2 => [0] | 3 => [1, 2] | 4 => [3] | _ => [],
+    desc := fun a => match a with
+      | 0 => [1, 2, 3, 4] | 1 => [3, 4] | 2 => [3, 4] | 3 => [4] | _ => [],
+    failFast := ff }
+
+theorem diamond_dep_lt {ff : Bool} {d n : Nat} (h : d ∈ (diamond ff).deps n) : d < n ∧ n < 5 := by
+  simp only [diamond] at h
+  split at h <;> simp at h
+  all_goals first | (subst h; decide) | (rcases h with rfl | rfl <;> decide)
+
+theorem diamond_aux1 (ff : Bool) : ∀ n, n < 5 → ∀ a, a < 5 → a ∈ (diamond ff).deps n → n ∈ (diamond ff).desc a := by
+  cases ff <;> decide
+
+theorem diamond_aux2b (ff : Bool) : ((List.range 5).all fun n => (List.range 5).all fun x => (List.range 5).all fun a =>
+    !(decide (x ∈ (diamond ff).desc a) && decide (x ∈ (diamond ff).deps n)) || decide (n ∈ (diamond ff).desc a)) = true := by
+  cases ff <;> decide
+
+theorem diamond_aux2 (ff : Bool) : ∀ n, n < 5 → ∀ x, x < 5 → ∀ a, a < 5 →
+    (x ∈ (diamond ff).desc a ∧ x ∈ (diamond ff).deps n) → n ∈ (diamond ff).desc a := by
+  intro n hn x hx a ha h
+  have := diamond_aux2b ff
+  simp only [List.all_eq_true, List.mem_range] at this
+  have := this n hn x hx a ha
+  simp only [Bool.or_eq_true, Bool.not_eq_true', Bool.and_eq_false_imp, decide_eq_true_eq, decide_eq_false_iff_not] at this
+  rcases this with h' | h'
+  · exact absurd h.2 (h' h.1)
+  · exact h'
+
+theorem diamond_desc_lt {ff : Bool} {a x : Nat} (h : x ∈ (diamond ff).desc a) : a < 5 := by
+  simp only [diamond] at h
+  split at h <;> simp at h
+  all_goals decide
+
+theorem diamond_dep_desc {ff : Bool} {a n : Nat} (h : a ∈ (diamond ff).deps n) : n ∈ (diamond ff).desc a := by
+  have := diamond_dep_lt h
+  exact diamond_aux1 ff n this.2 a (Nat.lt_trans this.1 this.2) h
+
+theorem diamond_desc_trans {ff : Bool} {a x n : Nat} (h1 : x ∈ (diamond ff).desc a) (h2 : x ∈ (diamond ff).deps n) :
+    n ∈ (diamond ff).desc a := by
+  have := diamond_dep_lt h2
+  exact diamond_aux2 ff n this.2 x (Nat.lt_trans this.1 this.2) a (diamond_desc_lt h1) ⟨h1, h2⟩
+
+theorem diamond_anc {ff : Bool} {a m : Node} : Anc (diamond ff) a m ↔ m ∈ (diamond ff).desc a := by
+  constructor
+  · intro h
+    induction h with
+    | base hd => exact diamond_dep_desc hd
+    | step _ hx ih => exact diamond_desc_trans ih hx
+  · intro h
+    have b01 : Anc (diamond ff) 0 1 := Anc.base (by simp [diamond])
+    have b02 : Anc (diamond ff) 0 2 := Anc.base (by simp [diamond])
+    have b13 : Anc (diamond ff) 1 3 := Anc.base (by simp [diamond])
+    have b23 : Anc (diamond ff) 2 3 := Anc.base (by simp [diamond])
+    have b34 : Anc (diamond ff) 3 4 := Anc.base (by simp [diamond])
+    have b03 : Anc (diamond ff) 0 3 := Anc.step b01 (by simp [diamond])
+    have b04 : Anc (diamond ff) 0 4 := Anc.step b03 (by simp [diamond])
+    have b14 : Anc (diamond ff) 1 4 := Anc.step b13 (by simp [diamond])
+    have b24 : Anc (diamond ff) 2 4 := Anc.step b23 (by simp [diamond])
+    simp only [diamond] at h
+    split at h <;> simp at h
+    · rcases h with h | h | h | h <;> subst h <;> assumption
+    · rcases h with h | h <;> subst h <;> assumption
+    · rcases h with h | h <;> subst h <;> assumption
+    · subst h; assumption
+
+theorem diamond_ok (ff : Bool) : CfgOK (diamond ff) where
+  closed := by
+    intro n hn d hd
+    simp only [diamond] at hn hd ⊢
+    simp at hn
+    rcases hn with rfl | rfl | rfl | rfl <;> simp at hd <;> simp [hd]
+    rcases hd with rfl | rfl <;> simp
+  acyclic := by
+    apply Subrelation.wf (r := (· < ·)) _ Nat.lt_wfRel.wf
+    intro d n h
+    exact (diamond_dep_lt h).1
+  desc_iff := fun a m => diamond_anc.symm
+
+/-- keep-going on the diamond: 0 ok, 1 fails while 2 is still running; 3 is skipped, 2 finishes, Walk returns -/
+def diamondFailRun : List Ev :=
+  [.wake 0, .cbReturn 0 .ok, .complete 0, .wake 1, .wake 2, .cbReturn 1 .fail, .complete 1, .exit 3, .cbReturn 2 .ok, .complete 2,
+   .walkReturn false]
+
+/-- everything succeeds; 1 and 2 run concurrently -/
+def diamondOkRun : List Ev :=
+  [.wake 0, .cbReturn 0 .ok, .complete 0, .wake 2, .wake 1, .cbReturn 1 .ok, .cbReturn 2 .ok, .complete 2, .complete 1, .wake 3,
+   .cbReturn 3 .ok, .complete 3, .walkReturn false]
+
+/-- fail-fast on the diamond: 1 fails while 2 is running; Walk returns at once, 2 is told to stop and returns a cancellation -/
+def diamondFfRun : List Ev :=
+  [.wake 0, .cbReturn 0 .ok, .complete 0, .wake 1, .wake 2, .cbReturn 1 .fail, .complete 1, .walkReturn true, .deliverCancel 2,
+   .cbReturn 2 .cancelled, .deliverCancel 3, .exit 3]
+
+/-- interrupt on the diamond while 1 and 2 run: 1 aborts, 2 ignores the cancellation and finishes -/
+def diamondIntRun : List Ev :=
+  [.wake 0, .cbReturn 0 .ok, .complete 0, .wake 1, .wake 2, .ctxCancel, .walkReturn true, .cbReturn 1 .cancelled, .cbReturn 2 .ok,
+   .complete 2]
+
+example : (run (diamond false) (init (diamond false)) diamondFailRun).isSome = true ∧
+    (run (diamond false) (init (diamond false)) diamondOkRun).isSome = true ∧
+    (run (diamond true) (init (diamond true)) diamondFfRun).isSome = true ∧
+    (run (diamond false) (init (diamond false)) diamondIntRun).isSome = true := by decide
+
 end Grog.Walker.Ex
